@@ -1283,6 +1283,47 @@ class Walker:
             self._maybe_raise(self.model.iter_raises(self, op, s), op, s, exits0)
             starts.append((s, itv))
         results.extend(exits0)
+        # iteration over a literal tuple/list: the elements are known, unroll exactly
+        exact = []
+        rest = []
+        for s, itv in starts:
+            elts = None
+            if isinstance(itv, ast.Tuple):
+                elts = itv.elts
+            elif isinstance(itv, ast.Name):
+                info = self.tokens.get(itv.id)
+                if info and info[0] == 'fresh' and info[1] == 'list':
+                    elts = info[3]
+            if elts is not None and len(elts) <= 4 and not any(isinstance(x, ast.Starred) for x in elts):
+                exact.append((s, itv, elts))
+            else:
+                rest.append((s, itv))
+        for s, itv, elts in exact:
+            cur_states = [s]
+            for elem in elts:
+                nxt_states = []
+                for s1 in cur_states:
+                    s2 = s1.push(Op('iter_next', stmt, val=itv, info=True))
+                    exits = []
+                    s2 = self.store(stmt.target, elem, s2, exits)
+                    results.extend(exits)
+                    s2 = s2.clone(loop=st.loop + 1)
+                    for out, s3 in self.run_body(stmt.body, s2):
+                        s3 = s3.clone(loop=st.loop)
+                        if out[0] in ('next', 'continue'):
+                            nxt_states.append(s3)
+                        elif out[0] == 'break':
+                            results.append((('next',), s3))
+                        else:
+                            results.append((out, s3))
+                cur_states = nxt_states
+            for s1 in cur_states:
+                s_done = s1.push(Op('iter_next', stmt, val=itv, info=False))
+                if stmt.orelse:
+                    results.extend(self.run_body(stmt.orelse, s_done))
+                else:
+                    results.append((('next',), s_done))
+        starts = rest
         cur = starts
         for it in range(self.model.loop_unroll + 1):
             nxt = []
